@@ -109,8 +109,9 @@ def strip_gargs(t):
 def norm_atom(a):
     a = strip_gargs(a)
     k = a[0]
-    if k in ("in", "notin") and len(a[2]) == 1 and k == "in":
-        return eq(a[1], ("int", a[2][0], "_"))
+    if k in ("in", "notin") and len(a[2]) == 1:
+        # a one-value `match` arm and an `==`/`!=` test are the same condition
+        return (eq if k == "in" else ne)(a[1], ("int", a[2][0], "_"))
     return a
 
 
